@@ -207,6 +207,40 @@ class History:
         res = self.r.step(op)
         self.check_get(res, sid2, ns, T)
 
+    def refused_connect(self, T):
+        """A further CONNECT of a transport that has sessions is refused (the
+        handler returns False, raises ConnectionRefusedError, or fails with
+        another exception): the sessions of the transport's namespaces are
+        what they were."""
+        rng, ctx = self.rng, self.ctx
+        free = [ns for ns in self.cfg['served'] if (T, ns) not in self.conn]
+        if not free or T not in self.open_T:
+            return
+        ns = rng.choice(free)
+        beh = rng.choice(['false', ['refuse', 'no'], 'fault'])
+        if beh == 'fault':
+            self.r.faults = {self.r.invocations}
+        else:
+            self.r.connect_script.setdefault(ns, []).append(beh)
+        op = ['connect', T, ns, None]
+        self.ops.append(op + [beh])
+        res = self.r.step(op)
+        self.r.faults = set()
+        self.r.d.clear_errors()
+        acc = [p for p in res.get('sent', {}).get(T, [])
+               if p['type'] == R.CONNECT]
+        if acc:
+            return self.fail('a refused CONNECT was accepted', res)
+        ctx.count('refused_connects')
+        for (T2, ns2), sid2 in sorted(self.conn.items()):
+            if T2 != T:
+                continue
+            op = ['get_session', sid2, ns2]
+            self.ops.append(op)
+            res = self.r.step(op)
+            if self.check_get(res, sid2, ns2, T2) is not True:
+                return
+
     def step(self):
         rng = self.rng
         ctx = self.ctx
@@ -268,6 +302,8 @@ class History:
         sid = self.conn[(T, ns)]
         if r > 0.97:
             return self.block_across_reconnect(T, ns, sid)
+        if r > 0.94:
+            return self.refused_connect(T)
         if r < 0.32:
             k = rng.random()
             if k < 0.45:
@@ -405,6 +441,7 @@ def run(ctx):
     ctx.require('duplicate_connects', 5)
     ctx.require('session_blocks_nested', 5)
     ctx.require('session_blocks_across_reconnect', 5)
+    ctx.require('refused_connects', 10)
     ctx.require('session_reads_in_disconnect_handler', 20)
     ctx.require('session_blocks_left_by_exception', 5)
     # threaded server: a re-CONNECT racing the end of the old connection
